@@ -2090,11 +2090,14 @@ package apd
 //@   assigns d
 //@   ensures [wf] ret2 == nil ==> inv(d) && ret0 == d
 //@ func (*Context).SetString
-//@   props C04 C06
+//@   props C04 C06 C07 C03
 //@   exported
 //@   requires writable(d)
 //@   assigns d
 //@   ensures [wf] ret2 == nil ==> inv(d) && ret0 == d
+//@   ensures [fits] wfctx(c) && ret2 == nil && !hassys(ret1) ==> fits(c, d)
+//@   ensures [trap] ret2 == nil ==> !trapped(c, ret1)
+//@   ensures [closed] closed(ret1)
 //@ func (*Context).NewFromString
 //@   props C04
 //@   exported
